@@ -1,5 +1,6 @@
 import Moclo.Proofs.Feature
 import Moclo.Proofs.Layout
+import Moclo.Proofs.Erase
 /-!
 # C08 — annotations are inherited faithfully by the assembled plasmid
 
@@ -10,7 +11,9 @@ locations are and what `>>`, `<<`, `reverse_complement` keep producing (theorems
 
 The theorems show that Biopython's test on raw, unnormalised coordinates coincides with containment of the
 denoted nucleotides (positions modulo `n`) in the retained fragment once the record is rotated to the cut, and
-that the kept feature denotes exactly the shifted nucleotides.
+that the kept feature denotes exactly the shifted nucleotides.  `product_is_concatenation_of_targets` ties
+these per-feature facts to `assemble`: citations aside, the product record *is* the concatenation of the
+targets of the supplied records (dereferencing and re-referencing touch citation entries only).
 -/
 namespace Moclo.C08
 open Moclo
@@ -190,6 +193,169 @@ theorem product_features (ts : List Rec) :
     (ts.foldl Rec.append ⟨0, [], [], []⟩).feats =
       ((ts.zip (offsets 0 ts)).map (fun p => p.1.feats.map (Feature.shift p.2))).flatten := by
   simpa using foldl_append_feats ts ⟨0, [], [], []⟩
+
+theorem target_eq_targetOf {c : ClassSpec} {r t : Rec} (h : c.target r = .ok t) :
+    ∃ m, c.matchSeq r.seq = .ok m ∧ t = c.targetOf r m := by
+  unfold ClassSpec.target at h
+  cases hm : c.matchSeq r.seq with
+  | error e => rw [hm] at h; cases h
+  | ok m => rw [hm] at h; simp only [Except.map, Except.ok.injEq] at h; exact ⟨m, rfl, h.symm⟩
+
+/-- the target extracted from a dereferenced input is, citations aside, the target of the input itself -/
+theorem deref_target_erase {e d : Ent} {t : Rec} (hd : DerefOf e d) (ht : d.spec.target d.rcd = .ok t) :
+    ∃ m, e.spec.matchSeq e.rcd.seq = .ok m ∧ t.erase = (e.spec.targetOf e.rcd m).erase := by
+  obtain ⟨m, hm, rfl⟩ := target_eq_targetOf ht
+  obtain ⟨_, hspec, _, hrec⟩ := hd
+  have hseq := (derefRec_fields hrec).1
+  refine ⟨m, by rw [← hspec, ← hseq]; exact hm, ?_⟩
+  rw [erase_targetOf, erase_targetOf, derefRec_erase hrec, hspec]
+
+/-- the fragment records the chain contributes are, citations aside, the targets of the supplied modules
+themselves, in chain order -/
+theorem chainTargets_sources {mods dms : List Ent} (hms : List.Forall₂ DerefOf mods dms) :
+    ∀ (chain : List (GMod Word)) (ts : List Rec), chainTargets dms chain = some ts →
+    ∃ srcs : List (Ent × Match), srcs.map (·.1.oid) = chain.map (·.oid) ∧
+      (∀ s ∈ srcs, s.1 ∈ mods ∧ s.1.spec.matchSeq s.1.rcd.seq = .ok s.2) ∧
+      ts.map Rec.erase = srcs.map (fun s => (s.1.spec.targetOf s.1.rcd s.2).erase) := by
+  intro chain
+  induction chain with
+  | nil =>
+    intro ts h
+    simp only [chainTargets, Option.some.injEq] at h
+    subst h
+    exact ⟨[], rfl, by simp, rfl⟩
+  | cons g gs ih =>
+    intro ts h
+    simp only [chainTargets] at h
+    cases hf : dms.find? (fun e => e.oid = g.oid) with
+    | none => rw [hf] at h; cases h
+    | some d =>
+      rw [hf] at h
+      simp only [] at h
+      split at h
+      · cases h
+      · cases ht : d.spec.target d.rcd with
+        | error er => rw [ht] at h; cases h
+        | ok t =>
+          cases hrest : chainTargets dms gs with
+          | none => rw [ht, hrest] at h; cases h
+          | some ts' =>
+            rw [ht, hrest] at h
+            simp only [Option.some.injEq] at h
+            subst h
+            obtain ⟨e, he, hde⟩ := find_deref hms g.oid hf
+            obtain ⟨m, hm, hte⟩ := deref_target_erase hde ht
+            obtain ⟨srcs, h1, h2, h3⟩ := ih ts' hrest
+            have heo : e.oid = g.oid := by simpa using List.find?_some he
+            refine ⟨(e, m) :: srcs, by simp [h1, heo], ?_, by simp [hte, h3]⟩
+            intro s hs
+            rcases List.mem_cons.mp hs with rfl | hs
+            · exact ⟨List.mem_of_find?_eq_some he, hm⟩
+            · exact h2 s hs
+
+theorem rerefRec_erase (r : Rec) : (rerefRec r).erase = r.erase := by
+  unfold Rec.erase
+  rw [rerefRec_erase_feats]
+  rfl
+
+/-- **end to end**: whenever `assemble` returns a product, then — citations aside — the product record is
+exactly the concatenation of the targets of the chain's modules (the *supplied* records, each with its own
+match) followed by the target of the vector: sequence, and every feature with its type, qualifiers, strand
+and coordinates.  Each target is `(record << start)[…]` plus its generated `source` feature, so
+`slice_all_or_nothing`, `attributes_carried` and `part_transport` apply to every feature of the product:
+nothing is invented, nothing inside a fragment is lost, nothing is truncated -/
+theorem product_is_concatenation_of_targets {v : Ent} {mods : List Ent} {pid pname : Nat} {p : Product}
+    {after : List Rec} (h : assemble v mods pid pname = (.ok p, after)) :
+    ∃ (srcs : List (Ent × Match)) (mv : Match),
+      (∀ s ∈ srcs, s.1 ∈ mods ∧ s.1.spec.matchSeq s.1.rcd.seq = .ok s.2) ∧
+      v.spec.matchSeq v.rcd.seq = .ok mv ∧
+      p.rcd.erase =
+        { ((srcs.map (fun s => (s.1.spec.targetOf s.1.rcd s.2).erase) ++ [(v.spec.targetOf v.rcd mv).erase]).foldl
+            Rec.append ⟨0, [], [], []⟩) with rid := pid } := by
+  unfold assemble at h
+  simp only [] at h
+  split at h
+  · cases h
+  · split at h
+    · cases h
+    · split at h
+      · cases h
+      · split at h
+        · cases h
+        · split at h
+          · cases h
+          · split at h
+            · rename_i dms dv hdm hdv
+              have hms := derefEnts_spec hdm
+              cases hr : derefRec v.rcd with
+              | none => simp [hr] at hdv
+              | some r =>
+                simp [hr] at hdv; subst hdv
+                simp only [Prod.mk.injEq] at h
+                obtain ⟨hcore, _⟩ := h
+                unfold assembleCore at hcore
+                simp only [] at hcore
+                split at hcore
+                · cases hcore
+                · rename_i acc hex
+                  split at hcore
+                  · cases hcore
+                  · split at hcore
+                    · cases hcore
+                    · split at hcore
+                      · cases hcore
+                      · rename_i vt hvt
+                        simp only [Except.ok.injEq] at hcore
+                        subst hcore
+                        obtain ⟨ts, hts, hacc⟩ := extractChain_eq_foldl hex
+                        obtain ⟨srcs, _, hsrc, hmap⟩ := chainTargets_sources hms _ ts hts
+                        have hdv : DerefOf v { v with rcd := r } := ⟨rfl, rfl, rfl, hr⟩
+                        obtain ⟨mv, hmv, hvte⟩ := deref_target_erase hdv hvt
+                        refine ⟨srcs, mv, hsrc, hmv, ?_⟩
+                        simp only []
+                        rw [rerefRec_erase]
+                        have : (acc.append vt).erase =
+                            (srcs.map (fun s => (s.1.spec.targetOf s.1.rcd s.2).erase) ++
+                              [(v.spec.targetOf v.rcd mv).erase]).foldl Rec.append ⟨0, [], [], []⟩ := by
+                          rw [Rec.erase_append, hacc, foldl_append_erase, hmap, hvte, List.foldl_append]
+                          rfl
+                        rw [← this]
+                        rfl
+            · cases h
+
+/-- … unrolled: the product's features (citations aside) are, in order, the features of those targets, each
+shifted by the total length of the fragments before it -/
+theorem product_features_unrolled {v : Ent} {mods : List Ent} {pid pname : Nat} {p : Product}
+    {after : List Rec} (h : assemble v mods pid pname = (.ok p, after)) :
+    ∃ (srcs : List (Ent × Match)) (mv : Match),
+      (∀ s ∈ srcs, s.1 ∈ mods ∧ s.1.spec.matchSeq s.1.rcd.seq = .ok s.2) ∧
+      v.spec.matchSeq v.rcd.seq = .ok mv ∧
+      (let ts := srcs.map (fun s => (s.1.spec.targetOf s.1.rcd s.2).erase) ++ [(v.spec.targetOf v.rcd mv).erase]
+       p.rcd.feats.map Feature.erase =
+         ((ts.zip (offsets 0 ts)).map (fun q => q.1.feats.map (Feature.shift q.2))).flatten ∧
+       p.rcd.seq = (ts.map (·.seq)).flatten) := by
+  obtain ⟨srcs, mv, h1, h2, h3⟩ := product_is_concatenation_of_targets h
+  refine ⟨srcs, mv, h1, h2, ?_⟩
+  simp only []
+  generalize srcs.map (fun s => (s.1.spec.targetOf s.1.rcd s.2).erase) ++ [(v.spec.targetOf v.rcd mv).erase] = ts at h3 ⊢
+  constructor
+  · rw [show p.rcd.feats.map Feature.erase = p.rcd.erase.feats from rfl, h3]
+    have := foldl_append_feats ts ⟨0, [], [], []⟩
+    simpa using this
+  · rw [show p.rcd.seq = p.rcd.erase.seq from rfl, h3]
+    have := foldl_append_seq ts ⟨0, [], [], []⟩
+    simpa using this
+
+/-- the features of a target: the features of the rotated record that lie wholly inside the retained
+stretch, shifted to its start, followed by the generated `source` feature -/
+theorem target_features (c : ClassSpec) (r : Rec) (m : Match) :
+    ∃ a b : Nat, (c.targetOf r m).feats =
+      (((r.rotl ((m.span 1).1 : Nat)).feats.filter (fun f => decide ((a : Int) ≤ f.lo ∧ f.hi ≤ (b : Int)))).map
+        (Feature.shift (-(a : Int)))) ++ [sourceFeature r.rid (c.targetOf r m).seq.length] := by
+  unfold ClassSpec.targetOf addSource
+  cases c.kind
+  · exact ⟨0, (m.span 2).2 - (m.span 1).1, rfl⟩
+  · exact ⟨(m.span 2).2 - (m.span 1).1, r.seq.length, rfl⟩
 
 /-! non-vacuity: a 10-mer whose fragment is `[0,4)` after rotating right by 3; the origin-spanning part
 `[8, 11)` (positions 8, 9, 0) becomes `[1, 4)` and is kept; `[6, 9)` becomes `[9, 12)` and is dropped -/
